@@ -145,8 +145,10 @@ def run(ctx):
         loc, glb = frame_state(rng)
         collecting = rng.random() < 0.5
         if collecting:
-            action = LocationAction("tp-log", None, {"fire_count": "-1", "fire_period": "0", "log_msg": tpl, "frame_type": "no_frame",
-                                                     "watches": []}, LocationAction.ActionType.Snapshot)
+            conf = {"fire_count": "-1", "fire_period": "0", "log_msg": tpl, "frame_type": rng.choice(["no_frame", "single_frame"]), "watches": []}
+            if rng.random() < 0.4:
+                conf["MAX_VARIABLES"] = rng.choice([0, 1, 3])       # the frame (or the first field) uses up the budget
+            action = LocationAction("tp-log", None, conf, LocationAction.ActionType.Snapshot)
         else:
             action = LocationAction("tp-log", None, {"fire_count": "-1", "fire_period": "0", "log_msg": tpl}, LocationAction.ActionType.Log)
         world.install([Trigger(LineLocation("m.py", 7, Location.Position.START), [action])])
